@@ -130,7 +130,9 @@ def handleQuery (j : Json) : E Json := do
     let srcS ← decSteps imS sp
     let msM := drainMach cxJ srcM.toArray (.doc doc) (k+1) {}
     let msS := eval srcS (.root doc)
-    match msM[k]?, msS[k]? with
+    let up : Nat := match (fieldD srcJ "up" (.num 0)).getNat? with | .ok n => n | .error _ => 0
+    let climb {β : Type} (m : MNode β) : Option (MNode β) := Nat.rec (some m) (fun _ acc => acc.bind MNode.parent) up
+    match (msM[k]?).bind climb, (msS[k]?).bind climb with
     | some m, some m' =>
       return Json.mkObj [("mach", machRecord cxJ stepsM (.nested m) true o),
                          ("spec", specRecord stepsS (.imag m') true o)]
